@@ -18,6 +18,19 @@ open Pmf
 
 /-! ### InterpolatedThresholder / ThresholdOptimizer -/
 
+/-- what the text LIFTED on every run from `_threshold_operation.py` / `_interpolated_thresholder.py`
+    (`Generated/ThresholderSrc.lean`, over which `Model/Pmf.lean` is defined) has to say for the theorems below:
+    strict comparisons with the threshold on the right, the interpolation and `p_ignore` mixing expressions, start value 0,
+    returned row `[1 - p, p]`, column 1 compared with the draw by `p >= u` -/
+theorem src_predict_path (s t p0 o0 p1 o1 pi c v p u : Rat) :
+    (ThresholderSrc.opGt s t = true ↔ t < s) ∧ (ThresholderSrc.opLt s t = true ↔ s < t) ∧
+    ThresholderSrc.interp p0 o0 p1 o1 = p0 * o0 + p1 * o1 ∧
+    ThresholderSrc.withIgnore pi c v = pi * c + (1 - pi) * v ∧
+    ThresholderSrc.initialProb s = 0 ∧ ThresholderSrc.col0 p = 1 - p ∧ ThresholderSrc.col1 p = p ∧
+    ThresholderSrc.probColumn = 1 ∧ (ThresholderSrc.drawsOne p u = true ↔ u ≤ p) :=
+  ⟨src_opGt s t, src_opLt s t, src_interp p0 o0 p1 o1, src_withIgnore pi c v, src_initialProb s, (src_cols p).1,
+   (src_cols p).2, src_probColumn, src_drawsOne p u⟩
+
 /-- the decidable predicate the driver evaluates is exactly the hypothesis used below -/
 theorem valid_decides (eps : Rat) (r : Rule) : r.valid eps = true ↔ r.Valid eps := valid_iff eps r
 
